@@ -216,7 +216,10 @@ impl Array {
             );
         });
 
-        let backward_op: Option<BackwardOp> = if !a.is_tracked.get() && !b.is_tracked.get() {
+        let backward_op: Option<BackwardOp> = if !a.is_tracked.get()
+            && !b.is_tracked.get()
+            && !c.map_or(false, |c| c.is_tracked.get())
+        {
             None
         } else {
             Some(Rc::new(move |c, t, x| {
